@@ -149,10 +149,16 @@ class Token(str):
     ) -> list[Token]:
 
         l_ = str.split(self, sep, maxsplit)
-        pos = self.pos
+        cursor = 0
         for i, s in enumerate(l_):
-            l_[i] = Token(s, pos, self.source, self.filename)
-            pos += len(s)
+            # Locate the part in the string, skipping the separator
+            # (or, when splitting on whitespace, the whitespace run).
+            if sep is None:
+                cursor = str.find(self, s, cursor) if s else cursor
+            elif i > 0:
+                cursor += len(sep)
+            l_[i] = Token(s, self.pos + cursor, self.source, self.filename)
+            cursor += len(s)
         return cast('list[Token]', l_)
 
     def strip(self, chars: str | None = None, /) -> Token:
